@@ -321,8 +321,10 @@ def generate_for_literal(
 ):
     if type_def.value.properties:
         names = [prop.name for prop in type_def.value.properties]
+        # As for a structure: an optional property may be absent (which is also
+        # what is left of it where the recursion is cut).
         value_variants = [
-            list(generate_for_type(prop.type, spec, visited))
+            list(generate_for_property(prop, spec, visited))
             for prop in type_def.value.properties
         ]
 
@@ -330,7 +332,11 @@ def generate_for_literal(
         for variants in products:
             is_valid = all(valid for valid, _ in variants)
             values = [value for _, value in variants]
-            variant = {name: value for name, value in zip(names, values)}
+            variant = {
+                name: value
+                for name, value in zip(names, values)
+                if not isinstance(value, Ignore)
+            }
             yield (is_valid, variant)
     else:
         # Literal with no properties are a way to extend LSP spec
